@@ -12,6 +12,9 @@ CONSTANTS MaxRecords,   \* application operations (each produces one record with
                         \* connection first (KCM, then its whole outbound queue again); whatever reaches B before
                         \* B's own Connector.accept() turn waits in DilatedConnectionProtocol._inbound_record_queue
                         \* and is handed to B's Manager, in arrival order, when B selects (connection.py)
+          , Backpressure \* BOOLEAN: the transport's send buffer may fill while A re-sends its queue on a new connection:
+                        \* Outbound.resumeProducing() sends _queued_unsent one record at a time and stops when the
+                        \* transport calls pauseProducing() from inside send_record(); the rest waits for the drain
 
 VARIABLES issued,     \* seqnums the application's operations were given, in order (0, 1, 2, ...)
           oq,         \* A's _outbound_queue: sent-or-unsent records not yet acked
@@ -21,22 +24,27 @@ VARIABLES issued,     \* seqnums the application's operations were given, in ord
           acks,       \* acks in flight B -> A
           wm,         \* B's _highest_inbound_acked, as wm+1 (0 = nothing yet)
           delivered,  \* seqnums dispatched to B's subchannels, in order
+          unsent,     \* A's _queued_unsent: the part of the queue still to be (re)sent on the current connection
+          apaused,    \* A's Outbound._paused
           cand,       \* B's end of the current connection is a candidate: not selected yet (Window only)
           inq,        \* records waiting in that candidate
           cuts,
           last
-vars == <<issued, oq, connA, connB, linkUp, wire, acks, wm, delivered, cand, inq, cuts, last>>
+vars == <<issued, oq, connA, connB, linkUp, wire, acks, wm, delivered, unsent, apaused, cand, inq, cuts, last>>
 
 Init == /\ issued = <<>> /\ oq = <<>> /\ connA = TRUE /\ connB = TRUE /\ linkUp = TRUE /\ wire = <<>> /\ acks = <<>>
-        /\ wm = 0 /\ delivered = <<>> /\ cand = FALSE /\ inq = <<>> /\ cuts = 0 /\ last = <<"Init", 0>>
+        /\ wm = 0 /\ delivered = <<>> /\ unsent = <<>> /\ apaused = FALSE /\ cand = FALSE /\ inq = <<>> /\ cuts = 0 /\ last = <<"Init", 0>>
 
 \* the application writes / opens / closes: build_record + queue_and_send_record
 AppSend == /\ Len(issued) < MaxRecords
            /\ LET s == Len(issued) IN
               /\ issued' = Append(issued, s) /\ oq' = Append(oq, s)
-              /\ wire' = IF connA /\ linkUp THEN Append(wire, s) ELSE wire
+              \* queue_and_send_record: behind whatever is still waiting to be re-sent, else straight onto the connection
+              /\ IF connA /\ unsent # <<>>
+                 THEN unsent' = Append(unsent, s) /\ wire' = wire
+                 ELSE unsent' = unsent /\ wire' = IF connA /\ linkUp THEN Append(wire, s) ELSE wire
               /\ last' = <<"AppSend", s>>
-           /\ UNCHANGED <<connA, connB, linkUp, acks, wm, delivered, cand, inq, cuts>>
+           /\ UNCHANGED <<connA, connB, linkUp, acks, wm, delivered, apaused, cand, inq, cuts>>
 
 \* B receives the next record: ack (even when old), drop if old, else advance the watermark and dispatch
 DeliverRec == /\ linkUp /\ (connB \/ cand) /\ wire # <<>>
@@ -49,35 +57,48 @@ DeliverRec == /\ linkUp /\ (connB \/ cand) /\ wire # <<>>
                          /\ inq' = inq
                     ELSE inq' = Append(inq, s) /\ UNCHANGED <<acks, wm, delivered>>      \* selecting: queued in the connection
                  /\ last' = <<"DeliverRec", s>>
-              /\ UNCHANGED <<issued, oq, connA, connB, linkUp, cand, cuts>>
+              /\ UNCHANGED <<issued, oq, connA, connB, linkUp, unsent, apaused, cand, cuts>>
 
 \* A receives an ack: everything up to it leaves the outbound queue
 DeliverAck == /\ linkUp /\ connA /\ acks # <<>>
               /\ LET a == Head(acks) IN
                  /\ acks' = Tail(acks)
                  /\ oq' = SelectSeq(oq, LAMBDA s : s > a)
+                 /\ unsent' = SelectSeq(unsent, LAMBDA s : s > a)
                  /\ last' = <<"DeliverAck", a>>
-              /\ UNCHANGED <<issued, connA, connB, linkUp, wire, wm, delivered, cand, inq, cuts>>
+              /\ UNCHANGED <<issued, connA, connB, linkUp, wire, wm, delivered, apaused, cand, inq, cuts>>
 
 \* the connection dies: whatever is in flight, either way, is lost (a mid-frame cut loses that frame)
 Cut == /\ linkUp /\ cuts < MaxCuts
        /\ linkUp' = FALSE /\ wire' = <<>> /\ acks' = <<>> /\ cuts' = cuts + 1
        /\ last' = <<"Cut", cuts + 1>>
-       /\ UNCHANGED <<issued, oq, connA, connB, wm, delivered, cand, inq>>
+       /\ UNCHANGED <<issued, oq, connA, connB, wm, delivered, unsent, apaused, cand, inq>>
 \* each side notices on its own (stop_using_connection)
-LossA == /\ ~linkUp /\ connA /\ connA' = FALSE /\ last' = <<"LossA", 0>>
+\* (A's stop_using_connection forgets what was still to be re-sent on that connection - all of it is in oq - and pauses)
+LossA == /\ ~linkUp /\ connA /\ connA' = FALSE /\ unsent' = <<>> /\ apaused' = TRUE /\ last' = <<"LossA", 0>>
          /\ UNCHANGED <<issued, oq, connB, linkUp, wire, acks, wm, delivered, cand, inq, cuts>>
 LossB == /\ ~linkUp /\ (connB \/ cand) /\ connB' = FALSE /\ cand' = FALSE /\ inq' = <<>> /\ last' = <<"LossB", 0>>
-         /\ UNCHANGED <<issued, oq, connA, linkUp, wire, acks, wm, delivered, cuts>>
+         /\ UNCHANGED <<issued, oq, connA, linkUp, wire, acks, wm, delivered, unsent, apaused, cuts>>
 \* a new connection is selected on both sides: use_connection re-sends the whole outbound queue, in order
+\* use_connection: _queued_unsent := _outbound_queue, resumeProducing(): records go out one by one until the queue
+\* is empty or - Backpressure - the transport says stop after k of them
+Resend(k) == /\ wire' = SubSeq(oq, 1, k) /\ unsent' = SubSeq(oq, k + 1, Len(oq)) /\ apaused' = (k < Len(oq))
+Ks == IF Backpressure /\ oq # <<>> THEN 1..Len(oq) ELSE {Len(oq)}
 Reconnect == /\ ~Window /\ ~linkUp /\ ~connA /\ ~connB
-             /\ linkUp' = TRUE /\ connA' = TRUE /\ connB' = TRUE /\ wire' = oq /\ acks' = <<>>
-             /\ last' = <<"Reconnect", Len(oq)>>
+             /\ linkUp' = TRUE /\ connA' = TRUE /\ connB' = TRUE /\ acks' = <<>>
+             /\ \E k \in Ks : Resend(k) /\ last' = <<"Reconnect", k>>
              /\ UNCHANGED <<issued, oq, wm, delivered, cand, inq, cuts>>
+\* the transport has drained: resumeProducing() goes on with what is left, and may be stopped again after j records
+Drain == /\ connA /\ apaused /\ unsent # <<>>
+         /\ \E j \in 1..Len(unsent) :
+              /\ wire' = IF linkUp THEN wire \o SubSeq(unsent, 1, j) ELSE wire
+              /\ unsent' = SubSeq(unsent, j + 1, Len(unsent)) /\ apaused' = (j < Len(unsent))
+              /\ last' = <<"Drain", j>>
+         /\ UNCHANGED <<issued, oq, connA, connB, linkUp, acks, wm, delivered, cand, inq, cuts>>
 \* Window: the Leader A selects the new connection (its KCM reaches B, whose end becomes a candidate) ...
 ReconnectA == /\ Window /\ ~linkUp /\ ~connA /\ ~connB /\ ~cand
-              /\ linkUp' = TRUE /\ connA' = TRUE /\ cand' = TRUE /\ inq' = <<>> /\ wire' = oq /\ acks' = <<>>
-              /\ last' = <<"ReconnectA", Len(oq)>>
+              /\ linkUp' = TRUE /\ connA' = TRUE /\ cand' = TRUE /\ inq' = <<>> /\ acks' = <<>>
+              /\ Resend(Len(oq)) /\ last' = <<"ReconnectA", Len(oq)>>
               /\ UNCHANGED <<issued, oq, connB, wm, delivered, cuts>>
 \* ... and later B's accept() turn selects it: the waiting records go to B's Manager in arrival order.
 \* (Connector.select_and_stop_remaining calls c.select(manager) - which empties the queue - before
@@ -93,10 +114,10 @@ SelectB == /\ cand
               /\ wm' = r.wm /\ delivered' = r.delivered /\ acks' = acks
            /\ cand' = FALSE /\ inq' = <<>> /\ connB' = TRUE
            /\ last' = <<"SelectB", Len(inq)>>
-           /\ UNCHANGED <<issued, oq, connA, linkUp, wire, cuts>>
+           /\ UNCHANGED <<issued, oq, connA, linkUp, wire, unsent, apaused, cuts>>
 
-Next == AppSend \/ DeliverRec \/ DeliverAck \/ Cut \/ LossA \/ LossB \/ Reconnect \/ ReconnectA \/ SelectB
-Spec == Init /\ [][Next]_vars /\ WF_vars(DeliverRec \/ DeliverAck \/ LossA \/ LossB \/ Reconnect \/ ReconnectA \/ SelectB)
+Next == AppSend \/ DeliverRec \/ DeliverAck \/ Cut \/ LossA \/ LossB \/ Reconnect \/ ReconnectA \/ SelectB \/ Drain
+Spec == Init /\ [][Next]_vars /\ WF_vars(DeliverRec \/ DeliverAck \/ LossA \/ LossB \/ Reconnect \/ ReconnectA \/ SelectB \/ Drain)
 
 \* ---- properties --------------------------------------------------------------------------------------------
 \* exactly once, in the order issued
@@ -104,6 +125,9 @@ InOrderOnce == IsPrefix(delivered, issued)
 \* nothing is forgotten: an undelivered record is still in A's queue
 NothingForgotten == \A i \in 1..Len(issued) : (issued[i] + 1 > wm) => (\E j \in 1..Len(oq) : oq[j] = issued[i])
 \* once connected and quiet, everything issued has been delivered
-Goal == (linkUp /\ connA /\ connB /\ wire = <<>>) => delivered = issued
+Goal == (linkUp /\ connA /\ connB /\ wire = <<>> /\ unsent = <<>>) => delivered = issued
+\* what waits to be re-sent is a suffix of the queue, in order; nothing waits without a connection
+UnsentSane == /\ (~connA => unsent = <<>>)
+              /\ \E k \in 0..Len(oq) : unsent = SubSeq(oq, k + 1, Len(oq))
 EventuallyAll == <>[](Len(issued) = MaxRecords => delivered = issued)
 ====
